@@ -177,20 +177,27 @@ func ruleC13F2(r *Run, le *LockEngine) {
 		}
 		name := fnName(w)
 		var ops []ssa.Instruction
-		allInstrs(w, func(ins ssa.Instruction) {
-			if c, ok := ins.(*ssa.Call); ok {
-				if cf := c.Call.StaticCallee(); cf != nil && p.Analysed(cf) && p.reachesCall(cf, 0, "io.Writer.Write") {
-					ops = append(ops, ins)
+		// (the body may be a function literal handed to a withLock helper: its lock state is that of the helper's call)
+		withAnon(w, func(g *ssa.Function) {
+			allInstrs(g, func(ins ssa.Instruction) {
+				if c, ok := ins.(*ssa.Call); ok {
+					if cf := c.Call.StaticCallee(); cf != nil && p.Analysed(cf) && p.reachesCall(cf, 0, "io.Writer.Write") {
+						ops = append(ops, ins)
+					}
+					if isCallNamed(c, "io.Writer.Write") {
+						ops = append(ops, ins)
+					}
 				}
-				if isCallNamed(c, "io.Writer.Write") {
-					ops = append(ops, ins)
-				}
-			}
+			})
 		})
 		ok := len(ops) > 0
 		lk := ""
 		for _, o := range ops {
 			h := le.HeldAt(o)
+			if len(h) == 0 && o.Parent() != w {
+				// a literal handed to a withLock helper: the locks the helper holds where it invokes the literal
+				h = le.heldWhereInvoked(o.Parent())
+			}
 			found := false
 			for k, m := range h {
 				if m == modeW && strings.HasPrefix(k, w.Params[0].Name()+".") {
